@@ -10,6 +10,9 @@ MC_Reqs == { [n |-> 1, avail |-> 1, hdr |-> <<"A">>, tag |-> 1],
              [n |-> 1, avail |-> 0, hdr |-> <<>>, tag |-> 4] }                \* garbled
 MC_RQ == {0, 2}
 Bound == Len(arrived) <= 3 /\ Len(sent) <= 3
+\* liveness: no state constraint; finite by construction
+LiveNext == Next /\ Len(arrived') <= 2 /\ Len(sent') <= 3
+LiveSpec == Init /\ [][LiveNext]_vars /\ Fairness
 Bound2 == Len(arrived) <= 2 /\ Len(sent) <= 2
 Sym == Permutations({p1, p2}) \cup Permutations({t1, t2})
 ====
